@@ -2,8 +2,8 @@ from checkdef import part
 SPEC = {
     "level": "model_checking",
     "parts": [part("c08_superpose", "plain", ["c08_superpose.cpp"])],
-    "rule": "all subsets of size <=3 (thorough <=4) of a 7-bias menu (two harmonics sharing a variable, walls, linear, "
-            "histogram, ABF with applyBias off, metadynamics) x all timeStepFactor tuples over {1..3} (thorough {1..4}) x "
+    "rule": "all subsets of size <=3 (thorough <=4) of a 8-bias menu (two harmonics sharing a variable, walls, linear, "
+            "histogram, ABF with applyBias off, metadynamics, harmonic with scaledBiasingForce grid) x all timeStepFactor tuples over {1..3} (thorough {1..4}) x "
             "first step of the run in 0..3 (thorough 0..5) x 7 (thorough 10) scripted steps, plus variable-level factors; "
             "each combined run is compared step by step with the sum of the single-bias runs; states = distinct force "
             "histories, transitions = Colvars steps; a case is non-trivial when accepted and compared on every step",
